@@ -252,7 +252,7 @@ func (c *FnCtx) blenFacts(st *State, s string) {
 	if c.specMode > 0 {
 		return
 	}
-	st.addFact(and("(>= (blen "+s+") 0)", "(= (= (blen "+s+") 0) (= "+s+" \"\"))"))
+	st.addFact(and("(>= (blen "+s+") 0)", "(<= (blen "+s+") 1152921504606846976)", "(= (= (blen "+s+") 0) (= "+s+" \"\"))"))
 }
 
 func (c *FnCtx) evalIndex(x *ast.IndexExpr, st *State, commaOk bool) []string {
@@ -453,6 +453,9 @@ func (c *FnCtx) allocStruct(st *State, t types.Type, v string) string {
 }
 
 func (c *FnCtx) wrapInt(term string, b *types.Basic) string {
+	if c.specMode > 0 {
+		return term // specifications use mathematical integers
+	}
 	if b.Kind() == types.Int || b.Kind() == types.UntypedInt {
 		return term // int arithmetic treated as mathematical (listed assumption)
 	}
